@@ -101,6 +101,13 @@ func (t *memTransport) Send(ctx context.Context, b []byte) ([]byte, error) {
 	} else if len(t.rules) > 0 {
 		r = t.matchRule(ev)
 	}
+	if r != nil {
+		if lets, ok := r["let"].(map[string]any); ok {
+			for k, v := range lets {
+				t.e.vars[k] = t.e.eval(m(v))
+			}
+		}
+	}
 	if r == nil {
 		// the script has no reaction left: the reply is lost, and after a few such
 		// transmissions the environment expires the context so that a call that
